@@ -1238,7 +1238,10 @@ theorem decls_rel : ∀ (decls : List Stmt) (st : Init) (env env' : Env) (fl : L
             · simp only [he] at hfind
               exact hr.pos hflag r s m hfind
         obtain ⟨st', hi, hrel, hfl, hrest, hdefs, hgates⟩ := ih _ _ env' o2 hall.2 hr' h2
-        exact ⟨st', fun tail => by simpa [initPass] using hi tail, hrel, by simp [hfl], hrest, hdefs, hgates⟩
+        have hnd : regDeclared st n = false := by
+          simp only [regDeclared, hr.q n, hr.c n]
+          simpa using hnew
+        exact ⟨st', fun tail => by simpa [initPass, hnd] using hi tail, hrel, by simp [hfl], hrest, hdefs, hgates⟩
     | creg n k =>
       simp only [flattenStmt] at h1
       split at h1
@@ -1254,7 +1257,10 @@ theorem decls_rel : ∀ (decls : List Stmt) (st : Init) (env env' : Env) (fl : L
           · rw [regFind_cons, regs_find_add _ _ _ _ hq, hr.c r, hr.nc]
           · simp [Regs.add, hr.nc]
         obtain ⟨st', hi, hrel, hfl, hrest, hdefs, hgates⟩ := ih _ _ env' o2 hall.2 hr' h2
-        exact ⟨st', fun tail => by simpa [initPass] using hi tail, hrel, by simp [hfl], hrest, hdefs, hgates⟩
+        have hnd : regDeclared st n = false := by
+          simp only [regDeclared, hr.q n, hr.c n]
+          simpa using hnew
+        exact ⟨st', fun tail => by simpa [initPass, hnd] using hi tail, hrel, by simp [hfl], hrest, hdefs, hgates⟩
     | _ => simp [isDecl] at hall
 
 /-- **the class W₀** -/
